@@ -242,7 +242,7 @@ class Exec(Engine):
         acc, excs = self.ev_list([e.left, e.right], st)
         out = list(excs)
         for s, (a, b) in acc:
-            if isinstance(e.op, (ast.Div, ast.FloorDiv, ast.Mod)) and is_num(b):
+            if isinstance(e.op, (ast.Div, ast.FloorDiv, ast.Mod)) and is_num(b) and is_num(a):
                 self.oblige(s, 'div-zero', to_real(b) != 0, e.lineno)
             out.append(Result(s, self.binop(e.op, a, b, s)))
         return out
@@ -1128,6 +1128,9 @@ class Exec(Engine):
                 if isinstance(n, Arr):
                     t = to_int(idx)
                     self.oblige(s, 'index-bounds', z3.And(t >= 0, t < n.n), line)
+                    if n.width is not None and n.elem == 'str':
+                        # a fixed-width numpy string array silently truncates what does not fit
+                        self.oblige(s, 'store-fits-string-width', smt.len_s(self.unwrap(val, 'str')) <= n.width, line)
                     s.setnode(base, n.replace(a=z3.Store(n.a, t, self.unwrap(val, n.elem))))
                     out.append(Result(s))
                     continue
